@@ -136,7 +136,7 @@ def run(tier, seed, only=None):
     if netlevel is not None and hasattr(netlevel, 'algorithms_agree') and only is None:
         netlevel.algorithms_agree(ck, tier, seed)
     ck.assumptions += ["tolerance (1e-9 + 100 eps kappa^2) x scale x 10 with kappa from the numpy SVD of the whitened design matrix"]
-    ck.minimum = dict(evaluations=tier_n(tier, 80, 3000), distinct=15)
+    ck.minimum = dict(evaluations=tier_n(tier, 80, 2000), distinct=15)
     return ck.finish()
 
 
